@@ -14,10 +14,25 @@
     be the visible state after exactly k such steps.  If the calls cannot be read that way (draws made by other means,
     other decomposition) the correspondence is reported broken and the net is decided by the statistical law test (d).
     Results are 0/1 with the shape of the start state; k = 0 returns the start state; overwrite=False leaves the
-    caller's tensor untouched, overwrite=True leaves the result in the caller's tensor; start tensors: float64 2-D,
-    float32, int64, 1-D, 3-D, strided and row views; chains continued across calls; the canonically re-ordered run is
-    replayed through the model's deterministic sampler (Gibbs.b_gibbs_steps / p_gibbs_steps) and storage model
-    (Gibbs.gibbs_call with its same_dtype flag).
+    caller's tensor untouched, overwrite=True leaves the result in the caller's tensor; chains continued across calls; the
+    canonically re-ordered run is replayed through the model's deterministic sampler (Gibbs.b_gibbs_steps /
+    p_gibbs_steps) and storage model (Gibbs.gibbs_call with its same_dtype flag).
+    When the calls DO read as >= k complete exact steps chained from the caller's start state but the returned tensor is not
+    the visible draw of step k (e.g. it is still the start state), that input is a direct failure of "returns the visible
+    states after k steps"; with overwrite=True the caller's memory cells (read through a fresh view of the caller's larger
+    tensor) must hold that last visible draw, and cells outside the view keep their values.
+    START-STATE LAYOUTS (table LAYOUTS): dense 2-D / 1-D / 3-D; every second column, a column block (offset 0 and 1) of a
+    wider pool, every second row, an offset row range, transposed, a transposed block, expanded (stride 0; overwrite=False
+    only), 1-D strided row / column views, 3-D with the unit axis permuted, 3-D column block, 3-D with permuted batch axes;
+    dtypes float64/32/16, bfloat16, int64/32/16/8, uint8, bool -- all through sample, sample(k, n, initial_state=) and
+    rbm.gibbs_steps, for BinaryRBM and PurificationRBM (DensityMatrix.sample).
+(g) STATISTICAL TESTS per layout that always run (they do not depend on how draws are made): all 2^nv start states x
+    900..2500 chains held in each 2-D / 3-D layout and several dtypes: the returned tensor, with overwrite=True the caller's
+    view, and the view after the chains are continued by one more overwrite=True call follow kernel^k / kernel^(k+1);
+    Observable.statistics(burn_in, steps, initial_state=<strided view>, overwrite) evaluates the observable on chain states
+    that follow kernel^(burn_in + i*steps) and leaves the final states in / does not touch the user's view; Observable.sample
+    with a view is tied by content.  Three nets with moderate couplings (identity kernel off by > 0.3 in some cell) run these
+    FIRST, before anything else.
 (e) same-object histories: after the first pass the parameters of the SAME RBM object are changed (in-place add_,
     data.copy_, rebinding .data, load_state_dict, new nn.Parameter); tables are rebuilt and (a), (b) and traces re-run.
 (f) STATISTICAL TESTS that always run (Hoeffding, delta = 1e-9 per cell): sample(k, num_samples) without initial_state
@@ -35,12 +50,24 @@ RULE = ("state types positive / complex / density; shapes nv,nh in 1..4, na in 1
         "nh != nv, na != nh, size-1 dims; thorough: all 16 binary shapes x 2 types and all 48 purification shapes); "
         "parameters from the mixture in harness/gen.py with every bias non-zero; all 2^nv visible, 2^nh hidden, 2^na "
         "auxiliary configurations enumerated; sampling scenarios k in 0..3 x overwrite in {False,True} x continued "
-        "calls x gibbs_steps / sample(with and without initial_state); a case is (state type, shape, parameter draw); "
+        "calls x gibbs_steps / sample(with and without initial_state) x start-state layout (16 layouts: dense, strided / "
+        "column-block / transposed / expanded / offset views of a larger tensor, 1-D and 3-D forms) x start dtype (10 dtypes); "
+        "fixed cases first: three well-mixing nets (one per state type) through every layout, dtype and the per-layout law "
+        "tests; a case is (state type, shape, parameter draw); "
         "non-trivial := all biases non-zero and the kernel has no row equal to another (the chain depends on its state)")
 ASSUMPTIONS = ["torch.bernoulli(p) returns independent 0/1 draws with P(1) = p per entry (trusted; the thorough tier adds a "
                "Hoeffding-bounded statistical test of the end-to-end law, labelled as a test)",
                "torch matmul/sigmoid implement the real functions up to rounding (tolerance 1e-9 relative)",
-               "all tensors are on the CPU (the documented device exception of overwrite is not exercised)"]
+               "all tensors are on the CPU (the documented device exception of overwrite is not exercised)",
+               "overwrite=True on an expanded / self-overlapping start state is outside the quantifier (torch refuses in-place "
+               "writes into such tensors); expanded start states are exercised with overwrite=False only",
+               "a tensor-level read: when every recorded torch.bernoulli call is an exact conditional and the calls form >= k "
+               "complete steps chained from the caller's start state, the sampler is taken to have run its chain through these "
+               "calls, so a returned tensor that is not the visible draw of step k (or of a later step) is a failing input",
+               "two start-state forms fail on the unchanged tree and are probed but only recorded (evidence extra "
+               "'unfiled_findings', histogram 'UNFILED-FINDING:*') until known_findings.json has an open entry with match "
+               "{'pending_finding': <tag>}: 3-D start state with permuted batch axes (raises), 1-D strided view with "
+               "overwrite=True (writes into neighbouring cells of the caller's storage)"]
 
 HOEFFDING_DELTA = 1e-9
 # relative tolerance for oracle relations that compare DIFFERENT float paths (torch's softplus returns x above its
@@ -72,7 +99,8 @@ def bern_matrix(P, B):
 
 
 def tnp(t):
-    return t.detach().cpu().numpy().astype(float)
+    import torch
+    return t.detach().cpu().to(torch.float64).numpy().astype(float)
 
 
 class Net:
@@ -507,6 +535,20 @@ def verify_run(ctx, net, case, calls, v_start, result, k, what):
         ctx.require(what + ": exactly k block-Gibbs steps", False, case,
                     "every draw is an exact conditional, but the result is the visible state after %d steps, not %d" % (j, k))
         return None
+    if reason is None and len(steps) >= k and len(calls) > 0:
+        # CONTENT TIE, no statistics needed: every recorded call is the exact conditional of a chain of >= k complete
+        # block-Gibbs steps that starts in the caller's start state (each step conditioned on the previous step's visible
+        # draw), so the sampler DID run the k steps -- but what it hands back is not the visible state after step k
+        # (nor after a later step).  "Returns the visible states after k steps" is violated on this very input.
+        earlier = [j for j in range(0, k) if np.array_equal(res2, states[j])]
+        ctx.require(what + ": the returned sample is the visible state after the k-th block-Gibbs step", False, case,
+                    {"reading": "all %d torch.bernoulli calls are exact conditionals forming %d complete steps from the start state"
+                                % (len(calls), len(steps)),
+                     "returned": res2.tolist(), "visible state after step k": states[k].tolist(),
+                     "returned equals the state after step": earlier[0] if earlier else None,
+                     "returned equals the start state": bool(np.array_equal(res2, v_start))})
+        ctx.count("stale_result_by_content")
+        return None
     # the structure of the torch.bernoulli calls could not be tied to k exact block-Gibbs steps.  This breaks the
     # correspondence (not yet the property: draws may be made by other means); the net falls back to the end-to-end
     # statistical test of the k-step law, which yields the failing input if the law is wrong.
@@ -539,15 +581,19 @@ def model_replay(ctx, net, case, steps, v_start, res2, k, overwrite, same_dtype,
     ctx.traces += 1
 
 
-def one_run(ctx, net, k, overwrite, v0, via, seed, form="2d"):
-    """One call of sample / gibbs_steps with a given start tensor; all checks of part (c). Returns the result tensor."""
+def one_run(ctx, net, k, overwrite, v0, via, seed, form="2d", outer=None):
+    """One call of sample / gibbs_steps with a given start tensor; all checks of part (c). Returns the result tensor.
+    outer = (pool, outside_mask): v0 is a view of the caller's larger tensor `pool`; the cells of the pool that do not
+    belong to the view must keep their values."""
     import torch
     dt = str(v0.dtype).replace("torch.", "")
     non_double = (v0.dtype != torch.double)
     case = net.case(part="sampler", k=k, overwrite=overwrite, via=via, torch_seed=seed, start_form=form,
-                    start_dtype=dt, non_double_start=non_double, initial_state=tnp(v0).tolist())
+                    start_dtype=dt, non_double_start=non_double, initial_state=tnp(v0).tolist(),
+                    start_strides=list(v0.stride()), start_contiguous=bool(v0.is_contiguous()))
     what = "%s(k=%d, overwrite=%s)" % (via, k, overwrite)
     before = v0.detach().clone()
+    pool_before = outer[0].detach().clone() if outer is not None else None
     ptr = v0.data_ptr()
     torch.manual_seed(seed)
     with BernoulliSpy() as spy:
@@ -571,43 +617,193 @@ def one_run(ctx, net, k, overwrite, v0, via, seed, form="2d"):
     M = int(np.prod(v0.shape[:-1])) if v0.dim() > 1 else 1
     start2 = tnp(before).reshape(M, net.nv)
     res2 = result.reshape(M, net.nv)
+    if k == 0:
+        # kernel^0 is the identity: zero steps return the start state itself
+        if not ctx.require(what + ": k = 0 returns the start state", bool(np.array_equal(res2, start2)), case,
+                           {"start": start2.tolist(), "result": res2.tolist()}):
+            return None
     steps = verify_run(ctx, net, case, spy.calls, start2, res2, k, what)
     same = (res.data_ptr() == ptr)
     ctx.count("returns_callers_storage:%s:%s" % ("overwrite" if overwrite else "no-overwrite", same))
     after2 = tnp(v0).reshape(M, net.nv)
+    if outer is not None and form in LAYOUTS and form != "expanded":
+        # the caller's start state = those memory cells (read through a fresh view, not through the object handed over)
+        after2 = tnp(fresh_view(form, outer[0], M, net.nv)).reshape(M, net.nv)
     good = True
     if overwrite:
         # the statement: "... unless overwriting was requested, and then it is updated in place"
         good &= ctx.require("overwrite=True updates the caller's start state in place",
                             bool(np.array_equal(after2, res2)), case,
                             {"call": what, "caller after": after2.tolist(), "result": res2.tolist(), "caller before": start2.tolist()})
+        if steps is not None and k > 0:
+            # content tie for the caller's buffer itself (the returned tensor may BE the caller's tensor, which makes the
+            # comparison above vacuous): it must hold the last visible draw of the k steps that were run
+            good &= ctx.require("overwrite=True leaves the final chain state (visible draw of step k) in the caller's tensor",
+                                bool(np.array_equal(after2, steps[-1]["v"])), case,
+                                {"call": what, "caller after": after2.tolist(), "visible state after step k": steps[-1]["v"].tolist(),
+                                 "caller before": start2.tolist()})
     else:
         good &= ctx.require(what + ": overwrite=False leaves the caller's start state untouched",
                             bool(torch.equal(v0, before)), case, {"before": start2.tolist(), "after": after2.tolist()})
+    if outer is not None:
+        mask = outer[1]
+        good &= ctx.require(what + ": cells of the caller's larger tensor outside the start-state view keep their values",
+                            bool(np.array_equal(tnp(outer[0])[mask], tnp(pool_before)[mask])), case,
+                            {"pool shape": list(outer[0].shape)})
     if steps is not None and (good or non_double):
         model_replay(ctx, net, case, steps, start2, res2, k, overwrite, not non_double, after2)
     return res
 
 
-def start_forms(ctx, net, N=3):
-    """start tensors of the forms the quantifier's "every start state" covers: (form name, tensor)"""
+# ---- start-state LAYOUTS: how a caller may hold the (chains..., nv) start state inside a larger tensor of his own.
+# name -> (shape of the caller's pool for M chains of nv units, view of the pool that is the start state, constraint)
+# constraint: "M1" one chain (1-D start state), "even" M even, "same" all chains equal + overwrite=False only (stride 0:
+# torch refuses in-place writes into self-overlapping tensors), None otherwise.
+LAYOUTS = {
+    "contiguous":          (lambda M, nv: (M, nv),          lambda p, M, nv: p,                      None),
+    "col-stride":          (lambda M, nv: (M, 2 * nv),      lambda p, M, nv: p[:, ::2],              None),
+    "col-block":           (lambda M, nv: (M, nv + 2),      lambda p, M, nv: p[:, 1:nv + 1],         None),
+    "col-block0":          (lambda M, nv: (M, nv + 3),      lambda p, M, nv: p[:, :nv],              None),
+    "row-stride":          (lambda M, nv: (2 * M, nv),      lambda p, M, nv: p[::2],                 None),
+    "row-offset":          (lambda M, nv: (M + 2, nv),      lambda p, M, nv: p[1:M + 1],             None),
+    "transposed":          (lambda M, nv: (nv, M),          lambda p, M, nv: p.t(),                  None),
+    "transposed-block":    (lambda M, nv: (nv + 1, M + 1),  lambda p, M, nv: p[1:, :M].t(),          None),
+    "expanded":            (lambda M, nv: (1, nv),          lambda p, M, nv: p.expand(M, nv),        "same"),
+    "1d":                  (lambda M, nv: (nv,),            lambda p, M, nv: p,                      "M1"),
+    "1d-strided":          (lambda M, nv: (3, 2 * nv),      lambda p, M, nv: p[1, ::2],              "M1"),
+    "1d-column":           (lambda M, nv: (nv, 3),          lambda p, M, nv: p[:, 1],                "M1"),
+    "3d":                  (lambda M, nv: (2, M // 2, nv),  lambda p, M, nv: p,                      "even"),
+    "3d-lastdim-permuted": (lambda M, nv: (nv, 2, M // 2),  lambda p, M, nv: p.permute(1, 2, 0),     "even"),
+    "3d-col-block":        (lambda M, nv: (2, M // 2, nv + 2), lambda p, M, nv: p[:, :, 1:nv + 1],   "even"),
+    "3d-batch-permuted":   (lambda M, nv: (M // 2, 2, nv),  lambda p, M, nv: p.permute(1, 0, 2),     "even"),
+}
+LAYOUTS_2D = ("contiguous", "col-stride", "col-block", "col-block0", "row-stride", "row-offset", "transposed",
+              "transposed-block", "expanded")
+# every dtype the unchanged library accepts for a 0/1 start state (it converts with .to(weights))
+DTYPES = ("float64", "float32", "float16", "bfloat16", "int64", "int32", "int16", "int8", "uint8", "bool")
+# Two start-state forms FAIL ON THE UNCHANGED TREE (found while closing seed C05d; both come from torch.matmul(..., out=<the
+# caller's tensor>) inside prob_v_given_h / prob_v_given_ha):
+#   * a 3-D start state whose BATCH dimensions are permuted (t.permute(1, 0, 2)): sample raises RuntimeError;
+#   * a 1-D start state that is a strided view (a column / every second entry of a row of a larger tensor) with
+#     overwrite=True: the (1, nv) matmul result does not fit the (nv,) out tensor, torch RESIZES the caller's tensor object
+#     (its stride becomes 1) and the chain state is written into the neighbouring cells of the caller's storage; the cells
+#     of the start state itself are not (all) updated.
+# They are generated and probed every time.  A failure is routed through ctx.require (stable `what`, case key
+# "pending_finding") when /verif/known_findings.json has an open entry whose match names that key (it then prints as
+# KNOWN-FINDING); until one is filed it is recorded in the evidence file under extra["unfiled_findings"] and counted
+# ("UNFILED-FINDING:..."), not reported as a violation of this run.  Once the library handles the form, the probe passes
+# and the form gets the full set of checks.
+PENDING = {"3d-batch-permuted": ("C05-3d-batch-permuted-start", lambda overwrite: True),
+           "1d-strided": ("C05-1d-strided-view-overwrite", lambda overwrite: bool(overwrite)),
+           "1d-column": ("C05-1d-strided-view-overwrite", lambda overwrite: bool(overwrite))}
+
+
+def make_start(layout, rows, dtype="float64"):
+    """rows: (M, nv) numpy 0/1.  Returns (start tensor = view of pool, pool, outside_mask) in the given layout."""
+    import torch
+    dt = getattr(torch, dtype)
+    rows = np.atleast_2d(np.asarray(rows, dtype=float))
+    M, nv = rows.shape
+    shape_fn, view_fn, _ = LAYOUTS[layout]
+    # cells outside the view hold 7 (never a value the sampler writes), 1 for bool
+    pool = torch.full(tuple(shape_fn(M, nv)), 1 if dt == torch.bool else 7, dtype=dt)
+    view = view_fn(pool, M, nv)
+    marker = torch.zeros(*shape_fn(M, nv), dtype=torch.int64)
+    mview = view_fn(marker, M, nv)
+    src = torch.tensor(rows, dtype=torch.double)
+    if layout == "expanded":
+        pool.copy_(src[:1].to(dt)); marker.fill_(1)
+    else:
+        view.copy_(src.reshape(view.shape).to(dt)); mview.fill_(1)
+    return view, pool, (marker.numpy() == 0)
+
+
+def fresh_view(layout, pool, M, nv):
+    """the start state re-derived from the caller's pool (the memory cells, not the tensor object handed to the library)"""
+    return LAYOUTS[layout][1](pool, M, nv)
+
+
+def probe_pending(ctx, net, form, rows, dtype, overwrite):
+    """One sample(1, ...) call on a form listed in PENDING.  True: the form works (run the full checks on it)."""
+    tag = PENDING[form][0]
+    M, nv = np.atleast_2d(rows).shape
+    v0, pool, mask = make_start(form, rows, dtype)
+    case = net.case(part="sampler", start_form=form, start_dtype=dtype, overwrite=overwrite, pending_finding=tag,
+                    initial_state=np.asarray(rows).tolist(), start_strides=list(v0.stride()), pool_shape=list(pool.shape))
+    pool_before = tnp(pool)
+    detail = None
+    try:
+        res = net.state.sample(1, initial_state=v0, overwrite=overwrite)
+        r = tnp(res).reshape(M, nv)
+        cells = tnp(fresh_view(form, pool, M, nv)).reshape(M, nv)
+        if not np.array_equal(tnp(pool)[mask], pool_before[mask]):
+            detail = {"problem": "cells of the caller's tensor outside the start-state view were modified",
+                      "pool before": pool_before.tolist(), "pool after": tnp(pool).tolist(), "result": r.tolist(),
+                      "stride of the caller's tensor object after the call": list(v0.stride())}
+        elif list(v0.stride()) != case["start_strides"]:
+            detail = {"problem": "the caller's tensor object was re-strided by the call", "strides before": case["start_strides"],
+                      "strides after": list(v0.stride())}
+        elif overwrite and not np.array_equal(cells, r):
+            detail = {"problem": "the memory cells of the start state do not hold the result", "cells": cells.tolist(), "result": r.tolist()}
+        elif not overwrite and not np.array_equal(cells, np.atleast_2d(rows)):
+            detail = {"problem": "overwrite=False modified the start state"}
+    except Exception as e:                                       # noqa: BLE001 - any exception is the finding
+        detail = {"problem": "raised " + repr(e)[:300]}
+    if detail is None:
+        ctx.count("pending_form_works:" + form)
+        return True
+    what = "sample accepts a start state in layout %s (overwrite=%s) and updates exactly its cells" % (form, overwrite)
+    filed = any(k.get("status") == "open" and (k.get("match") or {}).get("pending_finding") == tag for k in getattr(ctx, "known", []))
+    if filed:
+        ctx.require(what, False, case, detail)
+    else:
+        ctx.count("UNFILED-FINDING:%s:overwrite=%s" % (tag, overwrite))
+        lst = ctx.extra.setdefault("unfiled_findings", [])
+        if not any(x["case"]["pending_finding"] == tag for x in lst):
+            lst.append({"what": what, "case": case, "detail": detail})
+    return False
+
+
+def layout_runs(ctx, net, full):
+    """(c) for every start-state layout and dtype: content tie of one call on a handful of chains."""
     import torch
     rng = ctx.rng
-    rows = lambda n: net.V[rng.integers(len(net.V), size=n)]
-    big = torch.zeros(N, 2 * net.nv, dtype=torch.double)
-    big[:, ::2] = torch.tensor(rows(N), dtype=torch.double)
-    base = torch.zeros(N + 2, net.nv, dtype=torch.double)
-    base[1:N + 1] = torch.tensor(rows(N), dtype=torch.double)
-    return [("2d", torch.tensor(rows(N), dtype=torch.double)),
-            ("2d", torch.tensor(rows(N), dtype=torch.float32)),
-            ("2d", torch.tensor(rows(N), dtype=torch.int64)),
-            ("1d", torch.tensor(rows(1)[0], dtype=torch.double)),
-            ("3d", torch.tensor(rows(4).reshape(2, 2, net.nv), dtype=torch.double)),
-            ("strided-view", big[:, ::2]),
-            ("row-view", base[1:N + 1])]
+    names = [n for n in LAYOUTS if n != "contiguous"]
+    if not full:
+        names = list(rng.choice(names, size=5, replace=False))
+        for must in ("col-block0", "transposed"):
+            if must not in names and rng.random() < 0.5:
+                names.append(must)
+    vias = ("sample", "gibbs_steps", "sample(num_samples ignored)")
+    n = 0
+    for name in names:
+        cons = LAYOUTS[name][2]
+        M = 1 if cons == "M1" else 4
+        for overwrite in (False, True):
+            if cons == "same" and overwrite:
+                continue
+            rows = net.V[rng.integers(len(net.V), size=M)]
+            if cons == "same":
+                rows = np.repeat(rows[:1], M, axis=0)
+            dtype = "float64" if (n % 3) else DTYPES[int(rng.integers(len(DTYPES)))]
+            n += 1
+            k = int(rng.integers(1, 4))
+            v0, pool, mask = make_start(name, rows, dtype)
+            via = vias[n % 3]
+            if name in PENDING and PENDING[name][1](overwrite) and not probe_pending(ctx, net, name, rows, dtype, overwrite):
+                continue
+            one_run(ctx, net, k, overwrite, v0, via, ctx.torch_seed(), form=name, outer=(pool, mask))
+    # every accepted dtype on a dense start state (and on one view), overwrite on and off
+    dts = DTYPES if full else tuple(rng.choice(DTYPES, size=3, replace=False))
+    for i, dtype in enumerate(dts):
+        for overwrite in (False, True):
+            name = "contiguous" if (i + int(overwrite)) % 2 == 0 else ("col-block", "transposed", "row-stride")[i % 3]
+            rows = net.V[rng.integers(len(net.V), size=4)]
+            v0, pool, mask = make_start(name, rows, dtype)
+            one_run(ctx, net, int(rng.integers(1, 4)), overwrite, v0, vias[i % 3], ctx.torch_seed(), form=name, outer=(pool, mask))
 
 
-def check_sampler(ctx, net, ks=(0, 1, 2, 3)):
+def check_sampler(ctx, net, ks=(0, 1, 2, 3), full=False):
     import torch
     rng = ctx.rng
     N = 3
@@ -626,13 +822,8 @@ def check_sampler(ctx, net, ks=(0, 1, 2, 3)):
     # gibbs_steps called directly on the RBM, all start states at once
     v0 = torch.tensor(net.V, dtype=torch.double)
     one_run(ctx, net, 1, False, v0, "gibbs_steps", ctx.torch_seed())
-    # other forms of start tensor: float32 / int64 / 1-D / 3-D / non-contiguous views, overwrite on and off
-    forms = start_forms(ctx, net)
-    for fi, (form, v0) in enumerate(forms):
-        for overwrite in (False, True):
-            k = int(rng.integers(1, 4))
-            via = ("sample", "gibbs_steps", "sample(num_samples ignored)")[(fi + int(overwrite)) % 3]
-            one_run(ctx, net, k, overwrite, v0.clone() if form in ("2d", "1d", "3d") else v0, via, ctx.torch_seed(), form=form)
+    # other forms of start tensor: every accepted dtype / 1-D / 3-D / non-contiguous views of a larger tensor, overwrite on and off
+    layout_runs(ctx, net, full)
     # sample(k, num_samples) without initial_state: shape, 0/1; the chain is tied to the start state when that is observable
     for k, n in ((0, 4), (2, 5), (1, None)):
         case = net.case(part="sampler", k=k, num_samples=n, via="sample(num_samples)")
@@ -827,6 +1018,182 @@ def check_independence(ctx, net, n=20000, n_law=100000):
     ctx.count("independence_checked")
 
 
+def check_layout_law(ctx, net, full, reps=None):
+    """STATISTICAL TEST per start-state LAYOUT (always runs; the content tie of layout_runs cannot see a sampler that makes
+    its draws by other means or in another decomposition): all 2^nv start states, `reps` chains each, held by the caller
+    as a strided / transposed / column-block / expanded view or in another dtype.  The returned tensor -- and with
+    overwrite=True the caller's buffer, also after the chains are continued by one more call -- must follow kernel^k row
+    by row.  An identity kernel (start state handed back) deviates by 1 - K^k(s,s) in the cell of s."""
+    import torch
+    rng = ctx.rng
+    S = len(net.V)
+    reps = reps or (2500 if full else 900)
+    eps = hoeffding_eps(reps)
+    combos = []
+    if full:
+        for i, name in enumerate(LAYOUTS_2D):
+            for overwrite in (False, True):
+                combos.append((name, overwrite, "float64"))
+        for j, (name, dtype) in enumerate((("transposed", "float32"), ("col-block0", "int64"), ("col-stride", "uint8"),
+                                           ("row-stride", "bool"), ("3d-lastdim-permuted", "float64"),
+                                           ("3d-col-block", "float64"), ("transposed-block", "float16"))):
+            combos.append((name, bool(j % 2), dtype))
+            combos.append((name, not bool(j % 2), dtype))
+    else:
+        pool_names = [n for n in LAYOUTS_2D if n != "contiguous"] + ["3d-lastdim-permuted", "3d-col-block"]
+        for _ in range(2):
+            combos.append((str(rng.choice(pool_names)), bool(rng.integers(2)), str(rng.choice(DTYPES)) if rng.random() < 0.3 else "float64"))
+    for name, overwrite, dtype in combos:
+        cons = LAYOUTS[name][2]
+        if cons == "same":
+            if overwrite:
+                continue
+            s0 = int(np.argmin(np.diag(net.K_exact)))
+            rows = np.repeat(net.V[s0:s0 + 1], reps * 2, axis=0)
+        else:
+            rows = np.tile(net.V, (reps, 1))
+        M = rows.shape[0]
+        k = int(rng.integers(1, 4))
+        Kk = np.linalg.matrix_power(net.K_exact, k)
+        power = float(np.max(1.0 - np.diag(Kk)))
+        ctx.count("layout_law:identity_kernel_%s" % ("rejectable" if power > eps else "too_close_to_kernel^k"))
+        v0, pool, mask = make_start(name, rows, dtype)
+        seed = ctx.torch_seed()
+        case = net.case(part="layout law", k=k, overwrite=overwrite, start_form=name, start_dtype=dtype, chains=M, torch_seed=seed,
+                        start_strides=list(v0.stride()), start="all 2^nv states repeated %d times" % reps if cons != "same"
+                        else "state %s repeated" % net.V[s0].tolist())
+        what = "sample(k=%d, initial_state=<%d chains, layout %s, %s>, overwrite=%s)" % (k, M, name, dtype, overwrite)
+        pool_before = tnp(pool)
+        ok, res = ctx.call(what, case, lambda: net.state.sample(k, initial_state=v0, overwrite=overwrite))
+        ctx.count("layout_law:%s:%s:ow=%s" % (name, dtype, overwrite))
+        if not ok:
+            continue
+        r = tnp(res) if isinstance(res, torch.Tensor) else None
+        if not ctx.require(what + ": result is a 0/1 array with the shape of the start state",
+                           r is not None and tuple(r.shape) == tuple(v0.shape) and is01(r), case,
+                           {"shape": list(np.shape(r)), "start shape": list(v0.shape)}):
+            continue
+        r2 = r.reshape(M, net.nv)
+        law_by_start(ctx, net, "STATISTICAL TEST (Hoeffding, delta=1e-9 per cell): law of sample(k, initial_state=<strided view / "
+                     "other dtype>) == kernel^k", case, rows, r2, k, min_rows=min(800, reps))
+        if overwrite:
+            buf = tnp(v0).reshape(M, net.nv)
+            ctx.require("overwrite=True updates the caller's start state in place", bool(np.array_equal(buf, r2)), case, {"call": what})
+            law_by_start(ctx, net, "STATISTICAL TEST (Hoeffding, delta=1e-9 per cell): with overwrite=True the caller's start-state "
+                         "view follows kernel^k after the call", case, rows, buf, k, min_rows=min(800, reps))
+            # chains continued across calls on the caller's own view
+            ok, _ = ctx.call(what + " then sample(1, same view, overwrite=True)", case,
+                             lambda: net.state.sample(1, initial_state=v0, overwrite=True))
+            if ok:
+                buf2 = tnp(v0).reshape(M, net.nv)
+                if is01(buf2):
+                    law_by_start(ctx, net, "STATISTICAL TEST (Hoeffding, delta=1e-9 per cell): a chain continued in the caller's "
+                                 "start-state view across two overwrite=True calls follows kernel^(k+1)", dict(case, continued=True),
+                                 rows, buf2, k + 1, min_rows=min(800, reps))
+        else:
+            ctx.require(what + ": overwrite=False leaves the caller's start state untouched",
+                        bool(np.array_equal(tnp(v0).reshape(M, net.nv), rows)), case)
+        ctx.require(what + ": cells of the caller's larger tensor outside the start-state view keep their values",
+                    bool(np.array_equal(tnp(pool)[mask], pool_before[mask])), case, {"pool shape": list(pool.shape)})
+        ctx.extra["layout_law_tests"] = ctx.extra.get("layout_law_tests", 0) + 1
+
+
+def make_recording_observable():
+    """An observable (public base class) that records the chain states it is handed."""
+    from qucumber.observables import ObservableBase
+
+    class Recording(ObservableBase):
+        def __init__(self):
+            self.name = "first-unit"
+            self.symbol = "r"
+            self.seen = []
+
+        def apply(self, nn_state, samples):
+            self.seen.append(samples.detach().clone())
+            return samples[..., 0].to(dtype=__import__("torch").double)
+    return Recording()
+
+
+def check_observable_chains(ctx, net, full):
+    """Observable.statistics / Observable.sample with the user's chains handed over as a strided view: the observable must
+    be evaluated on chain states that follow kernel^(burn_in + i*steps) from the user's start states, and with
+    overwrite=True the user's view holds the final chain states.  (The statistics themselves are C13's subject.)"""
+    import torch
+    rng = ctx.rng
+    S = len(net.V)
+    reps = 2000 if full else 900
+    names = ("col-block0", "transposed", "row-stride", "col-stride", "transposed-block", "col-block")
+    combos = [(n, ow) for n in names[:4] for ow in (False, True)] if full else \
+             [(str(rng.choice(names)), bool(rng.integers(2)))]
+    for name, overwrite in combos:
+        burn, steps = int(rng.integers(1, 3)), int(rng.integers(1, 3))
+        rows = np.tile(net.V, (reps, 1))
+        M = rows.shape[0]
+        v0, pool, mask = make_start(name, rows)
+        seed = ctx.torch_seed()
+        case = net.case(part="observable chains", start_form=name, overwrite=overwrite, burn_in=burn, steps=steps, chains=M,
+                        num_samples=2 * M, torch_seed=seed, start="all 2^nv states repeated %d times" % reps)
+        try:
+            obs = make_recording_observable()
+        except Exception as e:                              # noqa: BLE001 - the observable API is C13's; not this property's failure
+            ctx.count("observable_api_unavailable:" + type(e).__name__)
+            return
+        what = "Observable.statistics(num_samples=2*chains, burn_in=%d, steps=%d, initial_state=<%s view>, overwrite=%s)" % (
+            burn, steps, name, overwrite)
+        pool_before = tnp(pool)
+        ok, _ = ctx.call(what, case, lambda: obs.statistics(net.state, 2 * M, burn_in=burn, steps=steps, initial_state=v0,
+                                                            overwrite=overwrite))
+        ctx.count("observable_chains:%s:ow=%s" % (name, overwrite))
+        if not ok:
+            continue
+        seen = [tnp(t) for t in obs.seen]
+        if len(seen) != 2 or any(t.shape != (M, net.nv) or not is01(t) for t in seen):
+            ctx.count("observable_chains:draws_not_observed_as_2_batches")      # how often it evaluates is C13's subject
+            continue
+        for i, t in enumerate(seen):
+            kk = burn + i * steps
+            law_by_start(ctx, net, "STATISTICAL TEST (Hoeffding, delta=1e-9 per cell): chain states an observable is evaluated on, "
+                         "started from the user's strided-view chains, follow kernel^(burn_in + i*steps)", dict(case, draw=i),
+                         rows, t, kk, min_rows=min(800, reps))
+        buf = tnp(v0).reshape(M, net.nv)
+        if overwrite:
+            ctx.require("Observable.statistics(overwrite=True): the user's chain view holds the final chain states",
+                        bool(np.array_equal(buf, seen[-1])), case, {"call": what})
+        else:
+            ctx.require("Observable.statistics(overwrite=False): the user's chains are left untouched",
+                        bool(np.array_equal(buf, rows)), case, {"call": what})
+        ctx.require(what + ": cells of the caller's larger tensor outside the chain view keep their values",
+                    bool(np.array_equal(tnp(pool)[mask], pool_before[mask])), case)
+    # Observable.sample(k, initial_state=view, overwrite): content tie through the public sampler
+    name, overwrite = (str(rng.choice(names)), bool(rng.integers(2)))
+    rows = net.V[rng.integers(S, size=4)]
+    v0, pool, mask = make_start(name, rows)
+    k = int(rng.integers(1, 4))
+    seed = ctx.torch_seed()
+    case = net.case(part="observable chains", via="Observable.sample", start_form=name, overwrite=overwrite, k=k, torch_seed=seed,
+                    initial_state=rows.tolist())
+    try:
+        obs = make_recording_observable()
+    except Exception:                                       # noqa: BLE001
+        return
+    torch.manual_seed(seed)
+    with BernoulliSpy() as spy:
+        ok, _ = ctx.call("Observable.sample(k, initial_state=<view>)", case,
+                         lambda: obs.sample(net.state, k, initial_state=v0, overwrite=overwrite))
+    if ok and len(obs.seen) == 1 and tuple(obs.seen[0].shape) == (4, net.nv) and is01(tnp(obs.seen[0])):
+        res2 = tnp(obs.seen[0])
+        what = "Observable.sample(k=%d, overwrite=%s)" % (k, overwrite)
+        steps_ = verify_run(ctx, net, case, spy.calls, rows, res2, k, what)
+        buf = tnp(v0).reshape(4, net.nv)
+        if overwrite and steps_ is not None:
+            ctx.require("overwrite=True leaves the final chain state (visible draw of step k) in the caller's tensor",
+                        bool(np.array_equal(buf, steps_[-1]["v"])), case, {"call": what})
+        if not overwrite:
+            ctx.require(what + ": overwrite=False leaves the caller's start state untouched", bool(np.array_equal(buf, rows)), case)
+        if steps_ is not None:
+            ctx.traces += 1
+
+
 def check_history(ctx, net, hows):
     """Same-object histories: after the first pass (which has exercised every method, so anything lazily cached is
     cached) the parameters of the SAME object are changed; conditionals, kernel and sampler must follow."""
@@ -862,7 +1229,11 @@ def check_net(ctx, net, statistical=False, extended=False, hows=None):
     distinct = False
     if hasattr(net, "impl_conds"):
         distinct = bool(check_kernel(ctx, net))
-    check_sampler(ctx, net)
+    check_sampler(ctx, net, full=extended)
+    # statistical tests that do not depend on how the draws are made: every start-state layout / dtype, and the chain
+    # states an observable is evaluated on when the user's chains are a strided view
+    check_layout_law(ctx, net, full=extended)
+    check_observable_chains(ctx, net, full=extended)
     if statistical or getattr(net, "unobserved", False):
         check_statistical(ctx, net)
         if getattr(net, "unobserved", False):
@@ -898,7 +1269,41 @@ def shapes(ctx):
     return b, p
 
 
+def moderate_net(ctx, kind, nv, nh, na):
+    """couplings and biases uniform in +-[0.15, 1.2]: every kernel^k row is far from a point mass, so that the layout law
+    tests reject an identity (or otherwise wrong) kernel with certainty, whatever the seed"""
+    def u(*shape):
+        return ctx.rng.uniform(0.15, 1.2, size=shape) * ctx.rng.choice([-1.0, 1.0], size=shape)
+    if kind == "density":
+        params = [u(nh, nv), u(na, nv), u(nv), u(nh), u(na)]
+        php = gen.prbm_params(ctx, nv, nh, na, phase=True)
+    else:
+        params = [u(nh, nv), u(nv), u(nh)]
+        php = gen.brbm_params(ctx, nv, nh) if kind == "complex" else None
+    return Net(kind, nv, nh, na, params, php)
+
+
+def layouts_first(ctx):
+    """Fixed cases that run before everything else: every start-state layout and dtype, on well-mixing nets of every state
+    type -- content tie on a handful of chains, then the law tests (sample / overwrite buffer / continued chains /
+    Observable.statistics) on thousands of chains per start state."""
+    for kind, nv, nh, na in (("positive", 3, 2, 0), ("density", 2, 2, 1), ("complex", 2, 3, 0)):
+        ctx.torch_seed()
+        net = moderate_net(ctx, kind, nv, nh, na)
+        ctx.count("layouts_first:" + kind)
+        layout_runs(ctx, net, full=True)
+        check_layout_law(ctx, net, full=True)
+        check_observable_chains(ctx, net, full=True)
+        if getattr(net, "unobserved", False):
+            net.K_impl = net.K_exact
+            check_statistical(ctx, net)
+        K2 = np.linalg.matrix_power(net.K_exact, 2)
+        ctx.case({"state": kind, "nv": nv, "nh": nh, "na": na, "p00": float(net.params[0][0, 0]), "part": "layouts first"},
+                 nontrivial=bool(np.max(1.0 - np.diag(K2)) > 0.3))
+
+
 def run(ctx):
+    layouts_first(ctx)
     for kind, nv, nh, na in FIXED_FIRST:
         ctx.torch_seed()
         check_net(ctx, draw_net(ctx, kind, nv, nh, na), extended=True, hows=list(Net.HOWS))
@@ -945,7 +1350,8 @@ def replay(ctx, rec):
     print("replay of", kind, case.get("nv"), case.get("nh"), case.get("na"), case.get("part"))
     hist = case.get("history") or []
     part = str(case.get("part"))
-    ext = part.startswith(("statistical test (random", "large batch"))
+    ext = part.startswith(("statistical test (random", "large batch", "layout law", "observable chains")) or \
+        str(case.get("start_form")) not in ("None", "2d", "contiguous")
     if hist:
         # same-object history: first pass on freshly drawn parameters (primes whatever the object caches), then the
         # recorded kinds of update, the last one to the recorded parameters
